@@ -193,6 +193,8 @@ type gor struct {
 	prio  int
 	begun bool
 	seq   int // unbuffered send: index of this goroutine's deposit
+	ranAt int       // step at which it was last given the processor
+	deflt bool      // woken from a select whose default branch was taken
 	until int64     // gSleeping: virtual deadline (ns)
 	cases []SelCase // gWaitSelect
 }
@@ -251,6 +253,7 @@ type Sim struct {
 	conds    map[unsafe.Pointer]*condState
 	maxG     int
 	now      int64 // virtual time, ns
+	spins    int   // consecutive forced yields with nothing else happening
 }
 
 // condState is the notify list of one sync.Cond: tickets are handed out in Wait (before the lock is released),
@@ -773,8 +776,10 @@ func (s *Sim) loop() {
 				}
 			}
 			if !ready && r.deflt {
-				r.reply <- reply{v: -1}
-				continue
+				// the default branch is taken; a loop polling with select/default must not keep the processor for ever
+				g.state, g.wake, g.deflt = gReady, r.reply, true
+				forceSwitch = true
+				break
 			}
 			g.state, g.wake, g.cases = gWaitSelect, r.reply, r.cases
 			if !ready {
@@ -800,15 +805,36 @@ func (s *Sim) loop() {
 			s.finish(OutStepCap, nil, 0)
 			return
 		}
+		if !forceSwitch {
+			s.spins = 0
+		}
 		next := s.pick(g, soft)
 		if forceSwitch && next == g {
 			// a goroutine that yields the processor does not get it back while others can run (polling loops must make progress
 			// under every policy)
-			for _, x := range s.gs {
-				if x != g && s.eligible(x) {
-					next = x
-					break
+			other := func() *gor {
+				// the one that has not run for the longest time (several pollers must not starve the workers between them)
+				var best *gor
+				for _, x := range s.gs {
+					if x != g && s.eligible(x) && (best == nil || x.ranAt < best.ranAt) {
+						best = x
+					}
 				}
+				return best
+			}
+			o := other()
+			s.spins++
+			if o == nil || s.spins > len(s.gs) {
+				// everybody who can run is only spinning (each has yielded in turn, nothing else happened): time passes
+				s.spins = 0
+				if d, ok := s.nextDeadline(); ok && d > s.now {
+					s.now = d
+					s.probes["clock-advanced-by-a-spinning-goroutine"]++
+					o = other()
+				}
+			}
+			if o != nil {
+				next = o
 			}
 		}
 		if next == nil {
@@ -819,6 +845,9 @@ func (s *Sim) loop() {
 			s.switches++
 		}
 		rep := reply{}
+		if next.deflt {
+			rep.v, next.deflt = -1, false
+		}
 		switch next.state {
 		case gWaitLock:
 			s.mu(next.obj).locked = true
@@ -869,7 +898,7 @@ func (s *Sim) loop() {
 			next.cases = nil
 			next.obj = c.Ch
 		}
-		next.state, next.begun = gRunning, true
+		next.state, next.begun, next.ranAt = gRunning, true, s.steps
 		s.running = next
 		s.lastRan = next.id
 		next.wake <- rep
